@@ -187,6 +187,8 @@ func (runInfo *runInfoStruct) callExpr() {
 	if f.Kind() == reflect.Interface && !f.IsNil() {
 		f = f.Elem()
 	}
+	// the function is the one read before the arguments are evaluated
+	f = detachValue(f)
 	if f.Kind() != reflect.Func {
 		runInfo.err = newStringError(callExpr, "cannot call type "+f.Kind().String())
 		runInfo.rv = nilValue
